@@ -35,6 +35,21 @@ Definition wanted : settings :=
   {| s_baud := Baud19200; s_csize := Bits8; s_parity := ParityNone; s_stop := Stop1;
      s_flow := FlowNone |}.
 
+(* The closure configure_port hands to serial_core's reconfigure: the five setters, applied to whatever read_settings
+   returned. *)
+Definition set_baud (s : settings) (b : baud_rate) : settings :=
+  {| s_baud := b; s_csize := s_csize s; s_parity := s_parity s; s_stop := s_stop s; s_flow := s_flow s |}.
+Definition set_csize (s : settings) (c : char_size) : settings :=
+  {| s_baud := s_baud s; s_csize := c; s_parity := s_parity s; s_stop := s_stop s; s_flow := s_flow s |}.
+Definition set_parity (s : settings) (x : parity) : settings :=
+  {| s_baud := s_baud s; s_csize := s_csize s; s_parity := x; s_stop := s_stop s; s_flow := s_flow s |}.
+Definition set_stop (s : settings) (x : stop_bits) : settings :=
+  {| s_baud := s_baud s; s_csize := s_csize s; s_parity := s_parity s; s_stop := x; s_flow := s_flow s |}.
+Definition set_flow (s : settings) (x : flow_control) : settings :=
+  {| s_baud := s_baud s; s_csize := s_csize s; s_parity := s_parity s; s_stop := s_stop s; s_flow := x |}.
+Definition apply_setters (s : settings) : settings :=
+  set_flow (set_stop (set_parity (set_csize (set_baud s Baud19200) Bits8) ParityNone) Stop1) FlowNone.
+
 (* configure_port *)
 Definition configure_port (p : sport) (timeout_ns : N) : result perr sport :=
   match sp_fail p with
@@ -42,9 +57,7 @@ Definition configure_port (p : sport) (timeout_ns : N) : result perr sport :=
   | FailSetBaud => Err (PErr FailSetBaud)                   (* settings.set_baud_rate(..)? *)
   | FailWrite => Err (PErr FailWrite)                       (* write_settings()? : device unchanged *)
   | _ =>
-      let p1 := {| sp_settings :=
-                     {| s_baud := Baud19200; s_csize := Bits8; s_parity := ParityNone;
-                        s_stop := Stop1; s_flow := FlowNone |};
+      let p1 := {| sp_settings := apply_setters (sp_settings p);   (* read_settings, the setters, write_settings *)
                    sp_timeout := sp_timeout p; sp_fail := sp_fail p;
                    sp_max_timeout := sp_max_timeout p |} in
       match sp_fail p with
